@@ -7,6 +7,9 @@ against the statement; kernels with symbolic strings for the first-line rewrite.
 Replay: the whole public path - real files, `db create`, SQLite rows vs recompiled files, `db
 create` again and `db reindex`.
 """
+import os as _os
+_os.environ["XH_NO_PATCH"] = "1"   # this process replays on the real code: never patch zorg here
+
 import json
 import os
 import sys
